@@ -52,7 +52,7 @@ type cmdSpec struct {
 func main() {
 	r := mc.NewRun("C03")
 	nRot := mc.Pick(r, 2, 3)
-	r.Rule(fmt.Sprintf("E3 over histories bootstrap; rotate; rotate with a colliding serial (refused); the same with --overwrite (replaces a certificate object); rotate serial=9; rotate serial=9 --keep_going (colliding); [thorough: rotate with a new common name] (bound %d) through the real CLI for memkm+memca, memkm+gcsca and localkm+localca with fresh component objects per command, and for the two storage-backed authorities also with one set of objects kept alive over the whole history; after each command 18 endorse request shapes {snp, tdx, both} x {launch VMSAs 0,1,2} x {changelist, commit}; every endorsement issued so far is re-verified after every later command at {start-1s, start, mid, end, end+1s} of the intersection of both certificates' validity; states = distinct (authority, history prefix, request shape); non-trivial = distinct (endorsement, verification time, entry point) accepted inside validity", nRot))
+	r.Rule(fmt.Sprintf("E3 over histories bootstrap; rotate; rotate with a colliding serial (refused); the same with --overwrite (replaces a certificate object); rotate serial=9; rotate serial=9 --keep_going (colliding); [thorough: rotate with a new common name] (bound %d) through the real CLI for memkm+memca, memkm+gcsca and localkm+localca with fresh component objects per command, and for the two storage-backed authorities also with one set of objects kept alive over the whole history; after each command 18 endorse request shapes {snp, tdx, both} x {launch VMSAs 0,1,2} x {changelist, commit} plus 5 with document dates of unusual magnitude (2262-04-11T23:47:17Z, 2300, 9999, 1969 with a fraction, 1600); every endorsement issued so far is re-verified after every later command at {start-1s, start, mid, end, end+1s} of the intersection of both certificates' validity; states = distinct (authority, history prefix, request shape); non-trivial = distinct (endorsement, verification time, entry point) accepted inside validity", nRot))
 	defer kmfx.Cleanup()
 	image := fx.SmallImage(0x3000)
 	fwDir := filepath.Join(kmfx.ScratchRoot(), "fw")
@@ -96,15 +96,23 @@ func main() {
 	type shape struct {
 		name string
 		args []string
+		ts   string // document timestamp override ("" = an hour after the command before)
 	}
 	var shapes []shape
 	for _, tech := range [][]string{{"--add_snp"}, {"--add_tdx"}, {"--add_snp", "--add_tdx"}} {
 		for _, vm := range []int{0, 1, 2} {
 			for _, prov := range []string{"--clspec=5", "--commit=" + strings.Repeat("ab", 20)} {
 				a := append(append([]string{}, tech...), fmt.Sprintf("--snp_launch_vmsas=%d", vm), prov)
-				shapes = append(shapes, shape{strings.Join(a, " "), a})
+				shapes = append(shapes, shape{strings.Join(a, " "), a, ""})
 			}
 		}
+	}
+	// Document dates of unusual magnitude (the date of the document is the requester's; it is not
+	// bound to the certificates' validity): beyond what an int64 of nanoseconds since 1970 holds,
+	// before 1970 with a fraction, the last year a textual timestamp can carry.
+	for _, ts := range []string{"2262-04-11T23:47:17Z", "2300-01-01T00:00:00Z", "9999-12-30T00:00:00Z", "1969-07-20T20:17:40.5Z", "1600-01-01T00:00:00Z"} {
+		a := []string{"--add_snp", "--add_tdx", "--snp_launch_vmsas=1", "--clspec=5"}
+		shapes = append(shapes, shape{strings.Join(a, " ") + " document-date=" + ts, a, ts})
 	}
 	ctx := output.NewContext(context.Background(), &output.Options{Quiet: true})
 	prodPolicy := abi.SnpPolicyToBytes(abi.SnpPolicy{SMT: true, MigrateMA: true})
@@ -161,7 +169,11 @@ func main() {
 					id := fmt.Sprintf("kind=%s history=%s endorse=[%s]", kind, strings.Join(hist, ";"), sh.name)
 					out := filepath.Join(kmfx.ScratchRoot(), fmt.Sprintf("out-%s-%d-%d", kind, step, si))
 					os.MkdirAll(out, 0o755)
-					args := append([]string{"endorse", "--uefi=" + fw, "--out_root=" + out, "--out_dir=o", tsf(c.ts.Add(time.Hour))}, sh.args...)
+					docTime := tsf(c.ts.Add(time.Hour))
+					if sh.ts != "" {
+						docTime = "--timestamp=" + sh.ts
+					}
+					args := append([]string{"endorse", "--uefi=" + fw, "--out_root=" + out, "--out_dir=o", docTime}, sh.args...)
 					err := w.CLI(args...)
 					r.Eval()
 					r.Transition(1)
